@@ -510,6 +510,7 @@ pub fn run(out: &mut Out, tier: &str, rng: &mut Rng) {
     let red = gen::tokens_reduced();
     let firsts = gen::first_tokens();
     out.comment("regression corpus (minimised earlier failures), always first");
+    par_stage(out, "par_locale", crate::langid::par_inputs(), locale, if thorough { 300 } else { 30 });
     for s in crate::corpus::REGRESS.iter() { parse_ops(out, s.as_bytes()); value_ops(out, s.as_bytes()); }
     // whatever of these the implementation accepts (lenient zone, repeated keys, `other` extensions it may choose to
     // support) must still satisfy C12 against its own canonical string: == iff equal strings, Equal iff ==
